@@ -132,7 +132,7 @@ def signature(case, ck, log, fault):
 
 
 def plan(tier, seed):
-    return F.std_plan(tier, seed, 640, 20000)
+    return F.std_plan(tier, seed, 2560, 30000)
 
 
 def run_shard(desc):
